@@ -33,7 +33,12 @@ def run_case(c):
                         if r - l >= 3:
                             fr = fr.get_slice(l, r)
                     elif op[0] == "dedrift":
-                        g2 = stg.dedrift(fr, drift_rate=op[1] * fr.df / fr.dt)
+                        try:
+                            g2 = stg.dedrift(fr, drift_rate=op[1] * fr.df / fr.dt)
+                        except ValueError:
+                            # a rate that would leave no channels is rejected (C17): the history simply does not contain this step
+                            hist.append(["skip", int(fr.tchans), int(fr.fchans), fr.waterfall is not None])
+                            continue
                         if g2.fchans >= 3:         # blimpy's .h5 reader needs at least 3 channels
                             fr = g2
                     elif op[0] == "save":
